@@ -1,6 +1,7 @@
 #!/venv/bin/python
 """Apply every seeded change in turn to the repository named by VERIF_REPO (default /repo), run the quick check
-of its own property, revert; print one line per seed and a summary.  Exit 1 if a seed is not reported."""
+of its own property (and of the other properties its meta.json records as reporting it), revert; print one line
+per seed and a summary.  Exit 1 if a seed is not reported.  SHARD=i/n runs every n-th seed starting at i."""
 import json
 import os
 import subprocess
@@ -21,23 +22,35 @@ if sh(f"git -C {repo} diff --quiet")[0] != 0:
     print(f"{repo} has uncommitted changes; refusing")
     sys.exit(2)
 missed = []
-for d in sorted((V / "seeded").iterdir()):
+shard = os.environ.get("SHARD")
+si, sn = (int(x) for x in shard.split("/")) if shard else (0, 1)
+for k, d in enumerate(sorted((V / "seeded").iterdir())):
     pid = d.name.split("-")[0]
     if only and pid not in only and d.name not in only:
         continue
+    if k % sn != si:
+        continue
+    try:
+        runs = json.loads((d / "meta.json").read_text()).get("checks_run", {})
+    except Exception:
+        runs = {}
+    pids = [pid] + sorted(p for p, v in runs.items() if p != pid and v.get("exit") == 1)
     rc, out = sh(f"git -C {repo} apply {d / 'patch.diff'}")
     if rc:
         print(f"{d.name}: patch does not apply: {out.strip()[:100]}")
         missed.append(d.name)
         continue
     try:
-        rc, out = sh(f"./check {pid} --tier quick", cwd=V, timeout=3000)
+        for q in pids:
+            rc, out = sh(f"./check {q} --tier quick", cwd=V, timeout=3000)
+            if rc == 1 and any(ln.startswith("VIOLATION") for ln in out.splitlines()):
+                break
     finally:
         sh(f"git -C {repo} checkout -- . && git -C {repo} clean -fdq src tests")
     viol = [ln for ln in out.splitlines() if ln.startswith("VIOLATION")]
     summ = [ln for ln in out.splitlines() if " quick:" in ln]
     corr = bool(viol) and all("no-failing-input-found" in v for v in viol)
-    print(f"{d.name}: exit={rc} violations={len(viol)}{' (corr-only)' if corr else ''} :: {summ[-1][:110] if summ else out[-200:]}", flush=True)
+    print(f"{d.name} [{q}]: exit={rc} violations={len(viol)}{' (corr-only)' if corr else ''} :: {summ[-1][:110] if summ else out[-200:]}", flush=True)
     if rc != 1 or not viol:
         missed.append(d.name)
 print("NOT REPORTED:", missed if missed else "none")
